@@ -32,6 +32,10 @@ type propConf struct {
 	ThorSecs  float64
 	Rule      string
 	Assume    []string
+	Fresh     int // runs per worker executed in a fresh child process each (package state as initialised)
+	Real      []string
+	Stub      []string
+	Measure   string
 }
 
 var props = map[string]propConf{
@@ -41,6 +45,18 @@ var props = map[string]propConf{
 	"C11": {Harness: "hstream", Level: "exploration", QuickRuns: 24000, ThorRuns: 1500000, QuickSecs: 45, ThorSecs: 900,
 		Rule: "Each run is one simulated execution of the real util.MessageStream with 1-16 stub producer tasks submitting 0-100 messages each through the cap-1 Outbound channel (raw util.Message implementations with unique xids and PRNG bodies of 8..65535 bytes, top-level util.Buffer messages, occasional resubmission of the same object), the real writer goroutine and a scripted connection whose Write can stall in simulated time below the 10 s write deadline; a third of the runs also carry inbound traffic. Schedules as for C10. A run is non-trivial when at least 2 producers had overlapping submissions; distinct = distinct digests of the complete decision+event trace.",
 		Assume: []string{"Go channel/goroutine semantics as implemented by the installed runtime", "SimConn.Write is atomic per call (net.Conn serialises concurrent writers)", "expected bytes of library messages come from an identically constructed twin object encoded once"}},
+	"C14": {Harness: "hconc", Level: "exploration", QuickRuns: 160000, ThorRuns: 8000000, QuickSecs: 40, ThorSecs: 900, Fresh: 12,
+		Rule: "Each run is one simulated execution of 2-64 tasks (real goroutines, one released at a time by the seeded scheduler). Every task executes a PRNG-generated program of up to 40 operations on values it alone owns: draw headers from the process-wide generator and from private generators, build messages of every kind through the library's constructors and adders, Len/MarshalBinary, openflow13.Parse of independently generated frames, packet-header decoders, registry lookups and mutation of their results. Scheduling points sit at every access to package-level variables, closure-captured variables, atomics and sync primitives inside the library (the only places where tasks working on independent values can influence each other). Strategies: PCT(depth 0-6), uniform, sticky, starvation windows; the op mix varies per run (id-heavy, codec-heavy, mixed). The first runs of every worker execute in a fresh process each so that first-use (lazy initialisation) behaviour is explored. A run is non-trivial when at least one task was pre-empted inside a library call (parked at a shared-state gate while another task ran); distinct = distinct digests of the complete decision+event trace.",
+		Assume: []string{"Go goroutine/atomic semantics as implemented by the installed runtime (sequentially consistent atomics)", "partial-order reduction: tasks operating on independent values interact only through instrumented shared locations (package-level variables, captured variables, atomics, sync objects); interleavings elsewhere cannot change an outcome", "race detection covers instrumented locations and method calls on objects rooted in package-level variables, not arbitrary heap objects", "runs never cross the 32-bit wrap of the id counter (excluded by the property)"},
+		Real:    []string{"common (header generator, messageXid, hello)", "openflow13 constructors, encoders, decoders, Parse, field registry", "protocol encoders/decoders incl. DHCP tables", "util", "Go runtime goroutines and atomics"},
+		Stub:    []string{"caller goroutines (task programs from the PRNG)", "choice of the next goroutine at every shared-state access (seeded strategy)", "initial value of the id counter (reset per run for replay)"},
+		Measure: "abstract state = (multiset of (gate kind, gate site) over all tasks, ids issued so far); transitions = (state, state'); counts above 16384 are k-minimum-values estimates"},
+	"C15": {Harness: "hconc", Level: "exploration", QuickRuns: 60000, ThorRuns: 3000000, QuickSecs: 40, ThorSecs: 900, Fresh: 6,
+		Rule: "Each run is one simulated execution of 2-32 tasks. Every registered field name (122, from a table transcribed from OpenFlow 1.3.5 and OVS meta-flow.h) is looked up in both mask modes in every run, dealt to the tasks in shuffled order and in random letter case, interleaved with repeated lookups of hot names, mutation of everything reachable from earlier results, re-checks of held results and message builds that use the registry. A scheduling point precedes every operation and every access to the registry variable. Oracles at each lookup: class/field/width/mask flag equal the specification table (variable-length tun_metadata: class and field only), the result is an object no earlier lookup returned; at every re-check and at the end: a held result has exactly the value its holder last gave it; happens-before race detector on library state. The pure clauses (2^32 pack/unpack inverse, completeness of the name table) are NOT decided here. Non-trivial = at least one task pre-empted inside a library call.",
+		Assume: []string{"Go goroutine semantics as implemented by the installed runtime", "reference table transcribed correctly from OpenFlow 1.3.5 Table 12 and OVS nicira-ext.h/meta-flow.h (DESIGN.md Appendix C)", "race detection covers instrumented locations, not arbitrary heap objects; sharing of result objects is detected by identity and by observing foreign changes"},
+		Real:    []string{"openflow13.FindFieldHeaderByName and the registry", "constructors that use the registry", "Go runtime goroutines"},
+		Stub:    []string{"caller goroutines (task programs from the PRNG)", "choice of the next goroutine (seeded strategy)"},
+		Measure: "abstract state = (multiset of (gate kind, gate site) over all tasks, ids issued so far); transitions = (state, state'); counts above 16384 are k-minimum-values estimates"},
 }
 
 type knownFinding struct {
@@ -466,8 +482,21 @@ func doCheck(repo, verif, prop string, pc propConf, tier string, seed uint64, wo
 	seen := map[string]bool{}
 	knownObserved := map[string]int64{}
 	var reported []string
+	var unrepro []string
 	exit := 0
 	os.MkdirAll(filepath.Join(verif, "replays"), 0o755)
+	freshReplay := func(file string) (int, string) {
+		rc := exec.Command(bin, "-mode", "replay", "-file", file)
+		rc.Env = append(os.Environ(), "GOMAXPROCS=1")
+		rout, rerr := rc.CombinedOutput()
+		code := 0
+		if ee, ok := rerr.(*exec.ExitError); ok {
+			code = ee.ExitCode()
+		} else if rerr != nil {
+			code = 2
+		}
+		return code, string(rout)
+	}
 	for i := range tot.Violations {
 		v := &tot.Violations[i]
 		if seen[v.key()] {
@@ -481,41 +510,64 @@ func doCheck(repo, verif, prop string, pc propConf, tier string, seed uint64, wo
 		if len(reported) >= 5 {
 			continue
 		}
-		// raw replay file -> minimise -> replay in a fresh process
-		raw := filepath.Join(wdir, fmt.Sprintf("raw-%d.json", i))
-		rf := map[string]any{"property": prop, "run_seed": v.RunSeed, "tree": treeID(repo), "scenario": v.Scenario, "decisions": v.Trace,
-			"violation": map[string]any{"property": v.Property, "oracle": v.Oracle, "class": v.Class, "site": v.Site, "detail": v.Detail, "run_seed": v.RunSeed, "run_index": v.RunIndex},
-			"hash": v.Hash}
-		rb, _ := json.Marshal(rf)
-		os.WriteFile(raw, rb, 0o644)
-		name := fmt.Sprintf("%s-%s-%s-seed%d-run%d.json", prop, sanitize(v.Oracle), sanitize(v.Class), seed, v.RunIndex)
-		final := filepath.Join(verif, "replays", name)
-		mc := exec.Command(bin, "-mode", "minimize", "-file", raw, "-out", final)
-		mc.Env = append(os.Environ(), "GOMAXPROCS=1")
-		mout, merr := mc.CombinedOutput()
-		if merr != nil {
-			fmt.Fprintf(os.Stderr, "vcheck: minimisation of %s failed (%v): %s\n", v.key(), merr, mout)
-			// fall back to the raw file
-			os.WriteFile(final, rb, 0o644)
-		} else {
-			fmt.Printf("vcheck: %s", mout)
+		// Up to three recorded samples of the class: raw replay file -> minimise -> replay in a
+		// fresh process; if the minimised file does not reproduce there, the raw file is tried.
+		// (A sample can depend on library state left behind by earlier runs of its worker
+		// process; such a sample does not reproduce alone and the next one is taken.)
+		done := false
+		var lastOut string
+		for j := i; j < len(tot.Violations) && !done; j++ {
+			c := &tot.Violations[j]
+			if c.key() != v.key() {
+				break
+			}
+			raw := filepath.Join(wdir, fmt.Sprintf("raw-%d.json", j))
+			rf := map[string]any{"property": prop, "run_seed": c.RunSeed, "tree": treeID(repo), "scenario": c.Scenario, "decisions": c.Trace,
+				"violation": map[string]any{"property": c.Property, "oracle": c.Oracle, "class": c.Class, "site": c.Site, "detail": c.Detail, "run_seed": c.RunSeed, "run_index": c.RunIndex},
+				"hash": c.Hash}
+			rb, _ := json.Marshal(rf)
+			os.WriteFile(raw, rb, 0o644)
+			name := fmt.Sprintf("%s-%s-%s-seed%d-run%d.json", prop, sanitize(c.Oracle), sanitize(c.Class+"-"+c.Site), seed, c.RunIndex)
+			final := filepath.Join(verif, "replays", name)
+			mc := exec.Command(bin, "-mode", "minimize", "-file", raw, "-out", final)
+			mc.Env = append(os.Environ(), "GOMAXPROCS=1")
+			mout, merr := mc.CombinedOutput()
+			minimised := merr == nil
+			if minimised {
+				fmt.Printf("vcheck: %s", mout)
+				code, out := freshReplay(final)
+				lastOut = out
+				if code != 1 {
+					minimised = false
+				}
+			} else {
+				fmt.Fprintf(os.Stderr, "vcheck: minimisation of %s (run %d) failed (%v): %s\n", c.key(), c.RunIndex, merr, mout)
+			}
+			if !minimised {
+				os.WriteFile(final, rb, 0o644)
+				code, out := freshReplay(final)
+				lastOut = out
+				if code != 1 {
+					os.Remove(final)
+					fmt.Fprintf(os.Stderr, "vcheck: sample run %d of %s does not reproduce alone in a fresh process (exit %d)\n", c.RunIndex, c.key(), code)
+					continue
+				}
+				fmt.Printf("vcheck: reporting the unminimised replay file for %s\n", c.key())
+			}
+			fmt.Printf("vcheck: violation oracle=%s class=%s site=%s seed=%d run=%d (seen in %d runs)\n        %s\n", c.Oracle, c.Class, c.Site, c.RunSeed, c.RunIndex, tot.ViolCounts[c.key()], c.Detail)
+			fmt.Printf("VIOLATION property=%s replay=%s\n", prop, final)
+			reported = append(reported, final)
+			exit = 1
+			done = true
 		}
-		rc := exec.Command(bin, "-mode", "replay", "-file", final)
-		rc.Env = append(os.Environ(), "GOMAXPROCS=1")
-		rout, rerr := rc.CombinedOutput()
-		code := 0
-		if ee, ok := rerr.(*exec.ExitError); ok {
-			code = ee.ExitCode()
+		if !done {
+			fmt.Fprintf(os.Stderr, "vcheck: candidate violation %s did not reproduce from any of its replay files in a fresh process — machinery trouble, not reported as a violation\n%s\n", v.key(), lastOut)
+			unrepro = append(unrepro, v.key())
 		}
-		if code != 1 {
-			fmt.Fprintf(os.Stderr, "vcheck: candidate violation %s did not reproduce from its replay file in a fresh process (exit %d) — machinery trouble, not reported as a violation\n%s\n", v.key(), code, rout)
-			cleanup()
-			return 2
-		}
-		fmt.Printf("vcheck: violation oracle=%s class=%s site=%s seed=%d run=%d (seen in %d runs)\n        %s\n", v.Oracle, v.Class, v.Site, v.RunSeed, v.RunIndex, tot.ViolCounts[v.key()], v.Detail)
-		fmt.Printf("VIOLATION property=%s replay=%s\n", prop, final)
-		reported = append(reported, final)
-		exit = 1
+	}
+	if len(unrepro) > 0 && exit == 0 {
+		cleanup()
+		return 2
 	}
 	for _, k := range known {
 		if k.Status == "open" && k.Property == prop {
@@ -549,12 +601,9 @@ func doCheck(repo, verif, prop string, pc propConf, tier string, seed uint64, wo
 		"abstract_states":     tot.States.estimate(),
 		"abstract_transitions": tot.Transitions.estimate(),
 		"distinct_traces":     tot.Traces.estimate(),
-		"distinct_measure":    "abstract state = (len of pool.Empty, pool.Full, Inbound, Outbound, Error, Shutdown, parserShutdown; multiset of (task class, gate kind, gate site) over all tasks; failure seen); transitions = (state, state', class of released task); counts above 16384 are k-minimum-values estimates",
+		"distinct_measure":    measureOf(pc, "abstract state = (len of pool.Empty, pool.Full, Inbound, Outbound, Error, Shutdown, parserShutdown; multiset of (task class, gate kind, gate site) over all tasks; failure seen); transitions = (state, state', class of released task); counts above 16384 are k-minimum-values estimates"),
 		"determinism_selfcheck": map[string]any{"runs_compared": detChecked, "processes": 2, "gomaxprocs": []int{4, 1}, "mismatches": 0},
-		"components": map[string]any{
-			"real": []string{"util/stream.go (MessageStream, BufferPool: reader, 25 parsers, writer, shutdown, drain goroutines)", "util/util.go", "openflow13.Parse and every decoder it reaches", "common", "protocol", "bytes.Buffer", "logrus", "Go runtime channels and goroutines"},
-			"stub": []string{"net.Conn (SimConn)", "peer switch (byte script, failures, write sink)", "controller application (consumer, error watcher, producers, shutdown request)", "choice of next goroutine and select arm (seeded strategy)", "clock (discrete-event)", "process exit (logrus ExitFunc)"},
-		},
+		"components": componentsOf(pc),
 		"instrumentation":         res.Report.Counts,
 		"known_findings_observed": knownObserved,
 		"violation_classes":       tot.ViolCounts,
@@ -583,6 +632,23 @@ func doCheck(repo, verif, prop string, pc propConf, tier string, seed uint64, wo
 		return 2
 	}
 	return exit
+}
+
+func measureOf(pc propConf, def string) string {
+	if pc.Measure != "" {
+		return pc.Measure
+	}
+	return def
+}
+
+func componentsOf(pc propConf) map[string]any {
+	if pc.Real != nil {
+		return map[string]any{"real": pc.Real, "stub": pc.Stub}
+	}
+	return map[string]any{
+		"real": []string{"util/stream.go (MessageStream, BufferPool: reader, 25 parsers, writer, shutdown, drain goroutines)", "util/util.go", "openflow13.Parse and every decoder it reaches", "common", "protocol", "bytes.Buffer", "logrus", "Go runtime channels and goroutines"},
+		"stub": []string{"net.Conn (SimConn)", "peer switch (byte script, failures, write sink)", "controller application (consumer, error watcher, producers, shutdown request)", "choice of next goroutine and select arm (seeded strategy)", "clock (discrete-event)", "process exit (logrus ExitFunc)"},
+	}
 }
 
 func maxNonZero(f float64) float64 {
